@@ -1,6 +1,7 @@
 //! C19 — on-disk normalize: runs the *built* `iwe normalize` binary on generated directory
 //! trees under `strace`, once cleanly and once per fault point (error / SIGKILL injected at
-//! every write, rename, writing open and close of the write phase; RLIMIT_FSIZE), and records
+//! every write, rename, writing open (the probing opens of taken temporary names included) and
+//! close of the write phase; RLIMIT_FSIZE), and records
 //! the system-call trace restricted to the library plus the directory snapshot afterwards.
 //! The loader and the export are also run in process (liwe::fs::new_for_path, Graph::import,
 //! Graph::export) to give the expected keys and bytes.  Everything is judged on the Coq side.
@@ -188,9 +189,13 @@ fn gen_tree(rng: &mut Rng, hostile: bool) -> Value {
         if !files.iter().any(|f| f["p"] == p.as_str()) && files.len() < 6 { files.push(json!({"p": p, "c": c})); }
     }
     if hostile && rng.chance(1, 5) && files.len() < 6 {
-        // a stale temporary sibling of a note
+        // a stale temporary sibling of a note, sometimes the next candidate name as well
         let p = format!("{}.tmp", notes[0].0);
         files.push(json!({"p": p, "c": "stale"}));
+        if rng.chance(1, 2) && files.len() < 6 {
+            let p = format!("{}.1.tmp", notes[0].0);
+            files.push(json!({"p": p, "c": "stale 1"}));
+        }
     }
     let mut empty_dirs: Vec<String> = dirs.iter().filter(|d| !d.is_empty()).cloned().collect();
     if rng.chance(1, 3) { empty_dirs.push("empty dir".to_string()); }
@@ -266,6 +271,8 @@ const TRACE_SET: &str = "trace=all";
 #[derive(Clone, Debug)]
 enum Op {
     OpenTrunc(String),
+    /// open(O_WRONLY|O_CREAT|O_EXCL): the exclusive create of the temporary file
+    OpenNew(String),
     Append(String, Vec<u8>),
     Sync(String),
     Close(String),
@@ -284,6 +291,8 @@ struct Ev {
     all_ordinal: usize,
     name: String,
     injected: bool,
+    /// an exclusive create that answered EEXIST (the probing of a taken temporary name)
+    busy: bool,
 }
 
 struct Traced {
@@ -380,7 +389,8 @@ fn parse_trace(text: &str, root: &str) -> (Vec<Ev>, bool, bool, Vec<(String, usi
         let fd_arg = |i: usize| -> Option<i64> { args.get(i).and_then(|a| a.trim().parse().ok()) };
         let mut push = |op: Op, events: &mut Vec<Ev>| {
             if injected { inj_lib = true; }
-            events.push(Ev { ok, op, ordinal, all_ordinal: if is_main { main_all } else { 0 }, name: name.clone(), injected });
+            let busy = !ok && !injected && matches!(op, Op::OpenNew(_)) && ret_txt.contains("EEXIST");
+            events.push(Ev { ok, op, ordinal, all_ordinal: if is_main { main_all } else { 0 }, name: name.clone(), injected, busy });
         };
         match name.as_str() {
             "open" | "openat" | "creat" => {
@@ -391,6 +401,8 @@ fn parse_trace(text: &str, root: &str) -> (Vec<Ev>, bool, bool, Vec<(String, usi
                     if writing {
                         let op = if flags.contains("O_TRUNC") && flags.contains("O_CREAT") && !flags.contains("O_EXCL") && !flags.contains("O_APPEND") {
                             Op::OpenTrunc(p.clone())
+                        } else if flags.contains("O_WRONLY") && flags.contains("O_CREAT") && flags.contains("O_EXCL") && !flags.contains("O_TRUNC") && !flags.contains("O_APPEND") {
+                            Op::OpenNew(p.clone())
                         } else {
                             Op::Other(format!("open {} {}", p, flags))
                         };
@@ -486,6 +498,7 @@ fn gs(s: &str) -> String { gbytes(s.as_bytes()) }
 fn gop(op: &Op) -> String {
     match op {
         Op::OpenTrunc(p) => gapp("OpenTrunc", &[gstr(p)]),
+        Op::OpenNew(p) => gapp("OpenNew", &[gstr(p)]),
         Op::Append(p, d) => gapp("Append", &[gstr(p), gbytes(d)]),
         Op::Sync(p) => gapp("Sync", &[gstr(p)]),
         Op::Close(p) => gapp("Close", &[gstr(p)]),
@@ -500,7 +513,7 @@ fn gfs(files: &[(String, Vec<u8>)]) -> String {
 }
 
 fn gfrun(kind: u64, arg: u64, t: &Traced, snap: &(Vec<(String, Vec<u8>)>, Vec<String>)) -> String {
-    let evs: Vec<String> = t.events.iter().map(|e| gapp(if e.ok { "Check_C19.Done" } else { "Check_C19.Failed" }, &[gop(&e.op)])).collect();
+    let evs: Vec<String> = t.events.iter().map(|e| gapp(if e.ok { "Check_C19.Done" } else if e.busy { "Check_C19.Busy" } else { "Check_C19.Failed" }, &[gop(&e.op)])).collect();
     gapp("Check_C19.FRun", &[gn(kind), gn(arg), gn(t.status as u64), glist(&evs), gfs(&snap.0), glist(&snap.1.iter().map(|d| gstr(d)).collect::<Vec<_>>())])
 }
 
@@ -596,7 +609,7 @@ pub fn execute(v: &Value) -> String {
                 (Op::Rename(..), name) => {
                     plan.push((3, k, Some(format!("{}:error=EIO:when={}", name, k)), None));
                 }
-                (Op::OpenTrunc(..), name) => {
+                (Op::OpenTrunc(..), name) | (Op::OpenNew(..), name) => {
                     plan.push((6, k, Some(format!("{}:error=ENOSPC:when={}", name, k)), None));
                 }
                 _ => {}
